@@ -57,6 +57,33 @@ class C14(MgrBase):
                     alive.append(a)
                 ops.append(self.rot(rng, alive, interested))
             cases.append(self.mk("raw", n, 4, 4 * n, ops, "rotation"))
+        # the timer's own wrapper: rates as the peers reported them (some not yet), leeching and seeding, three rounds
+        for _ in range(k // 3):
+            n = rng.choice([1, 3])
+            npeers = rng.choice([1, 3, 9, 11, 12, 15])
+            ops = []
+            for a in range(1, npeers + 1):
+                ops += ["add %d" % a, "bf %d %s" % (a, rand_bits(rng, n))]
+                if rng.random() < 0.7:
+                    ops.append("int %d" % a)
+            if rng.random() < 0.4:
+                ops.append("setst " + ",".join(["H"] * n))
+            late = rng.random() < 0.3
+            ties = rng.random() < 0.4
+            for a in range(1, npeers + 1):
+                if late and a == npeers:
+                    continue           # one peer has not reported yet: the tick must not rotate
+                v = lambda: rng.choice([0, 5, 5, 9]) if ties else rng.randrange(1000)
+                ops.append("stats %d %d %d" % (a, v(), v()))
+            for _ in range(rng.choice([1, 3, 4, 7])):
+                ops.append("tick")
+                if rng.random() < 0.3:
+                    a = rng.randrange(1, npeers + 1)
+                    ops.append(rng.choice(["int %d", "nint %d"]) % a)
+                if late and rng.random() < 0.4:
+                    ops.append("stats %d %d %d" % (npeers, rng.randrange(50), rng.randrange(50)))
+                    late = False
+            cases.append(self.mk("raw", n, 4, 4 * n, ops, "timer"))
         return cases
 
     def rot(self, rng, alive, interested):
